@@ -38,10 +38,22 @@ def lane(k, jobs, results, lock):
     repo = os.path.join(base, "repo")
     verif = os.path.join(base, "verif")
     os.makedirs(base, exist_ok=True)
-    sh("git -C /repo worktree add --detach %s HEAD" % repo)
+    # git worktree add is not safe to run concurrently; a lane whose setup fails must not take jobs (it would
+    # turn every seed it touches into an inconclusive exit 2)
+    with lock:
+        shutil.rmtree(base, ignore_errors=True)
+        os.makedirs(base, exist_ok=True)
+        sh("git -C /repo worktree prune")
+        rc0, o0 = sh("git -C /repo worktree add --detach %s HEAD" % repo)
     sh("rsync -a --exclude target --exclude .work --exclude replays --exclude .git %s/ %s/" % (VERIF, verif))
     sh("sed -i 's#path = \"/repo\"#path = \"%s\"#' harness/Cargo.toml" % repo, cwd=verif)
-    sh("./check --setup", cwd=verif)
+    rc1, o1 = sh("./check --setup", cwd=verif)
+    if rc0 != 0 or rc1 != 0 or not os.path.isdir(os.path.join(repo, "src")):
+        with lock:
+            print("lane %d: setup failed, lane retired\n%s\n%s" % (k, o0[-400:], o1[-400:]), flush=True)
+        sh("git -C /repo worktree remove --force %s" % repo)
+        shutil.rmtree(base, ignore_errors=True)
+        return
     while True:
         with lock:
             if not jobs:
@@ -64,14 +76,19 @@ def lane(k, jobs, results, lock):
                 if p in others and any(v.get("exit") == 1 and v.get("violation_lines", 0) > 0 for v in res.values()):
                     break
                 rc, o = sh("./check %s quick" % p, cwd=verif)
+                if rc not in (0, 1):
+                    # inconclusive (build or harness error): once more before it is reported as such
+                    rc, o = sh("./check %s quick" % p, cwd=verif)
                 viol = [l for l in o.splitlines() if l.startswith("VIOLATION")]
                 first = [l.strip() for l in o.splitlines() if re.match(r"^\s+C\d+/", l)]
                 res[p] = {"exit": rc, "violation_lines": len(viol), "first": first[0][:200] if first else ""}
-        sh("git checkout -- . && git clean -fdq", cwd=repo)
+                if rc not in (0, 1):
+                    res[p]["tail"] = o[-600:]
+        sh("git reset -q --hard HEAD && git clean -fdq", cwd=repo)
         with lock:
             results[sid] = res
             caught = [p for p, v in res.items() if isinstance(v, dict) and v.get("exit") == 1 and v.get("violation_lines", 0) > 0]
-            print("%-12s %s" % (sid, "caught by " + ",".join(caught) if caught else "MISSED " + json.dumps(res)[:300]), flush=True)
+            print("%-12s %s" % (sid, "caught by " + ",".join(caught) if caught else "MISSED " + json.dumps(res)[:1200]), flush=True)
     sh("git -C /repo worktree remove --force %s" % repo)
     shutil.rmtree(base, ignore_errors=True)
 
